@@ -121,6 +121,47 @@ def verify(src, sid, patch="patch.diff", demo="demo.py"):
     return ok
 
 
+def weak_confirm(src, sid, kind):
+    """for a kept change whose demonstration was written against a tree with a defect that has since been repaired (so it
+    already fails on the untouched HEAD for that unrelated reason): the ported change applies, compiles, keeps the suite
+    at 79, and the demonstration's verdict is - preserving change: the same failures with and without it (normalised
+    output equal); breaking change: strictly more failures with it than without.  Recorded as such in meta.json."""
+    patch_p, demo_p = os.path.join(src, "patch.diff"), os.path.join(src, "demo.py")
+    src_wt = os.path.dirname(os.path.abspath(src).rstrip("/"))
+
+    def norm(t):
+        t = re.sub(r"\d+(\.\d+)?\s*s\b", "<t>", t)
+        t = re.sub(r"0x[0-9a-f]+", "<addr>", t)
+        t = re.sub(r"/tmp/[\w./-]+", "<path>", t)
+        t = re.sub(r"\b1[5-9]\d{8}\b(-\d+)?", "<id>", t)
+        return t
+
+    def nfail(t):
+        m = re.findall(r"(?i)violations?[:= ]+(\d+)|(\d+) (?:violations?|problems?|FAILED)", t)
+        nums = [int(x) for tup in m for x in tup if x]
+        return max(nums) if nums else None
+    with Worktree() as wt:
+        os.makedirs(os.path.join(wt, "_out"), exist_ok=True)
+        for name in os.listdir(src):
+            if name.endswith(".py"):
+                with open(os.path.join(src, name)) as fh, open(os.path.join(wt, "_out", name), "w") as out:
+                    out.write(repoint(fh.read(), src_wt, wt))
+        rc0, out0 = sh("PYTHONPATH=%s %s _out/demo.py" % (wt, PY), cwd=wt, timeout=900)
+        rc_a, _ = sh("git apply %s" % patch_p, cwd=wt)
+        rc_c, _ = sh("%s -m compileall -q yowsup" % PY, cwd=wt)
+        _, out_t = sh("PYTHONPATH=%s %s -m pytest -q -p no:cacheprovider --continue-on-collection-errors 2>&1 | tail -1" % (wt, PY), cwd=wt)
+        rc1, out1 = sh("PYTHONPATH=%s %s _out/demo.py" % (wt, PY), cwd=wt, timeout=900)
+    base_ok = rc_a == 0 and rc_c == 0 and out_t.strip().startswith("79 passed")
+    if kind == "seeded":
+        ok = base_ok and rc1 != 0 and nfail(out0) is not None and nfail(out1) is not None and nfail(out1) > nfail(out0)
+        how = "failures without / with the change: %s / %s" % (nfail(out0), nfail(out1))
+    else:
+        ok = base_ok and rc0 == rc1 and norm(out0) == norm(out1)
+        how = "demo exit %d both ways, normalised output %s" % (rc0, "equal" if norm(out0) == norm(out1) else "DIFFERENT")
+    print("%-9s weak confirmation: %s (%s)" % (sid, "ok" if ok else "FAILED", how))
+    return ok, how
+
+
 def rebase(ids, edit=None):
     """tools/seeded.py rebase [<id> ...]: after a fix: commit in /repo moved the context of a kept change, re-create its
     patch against the new HEAD (patch -p1 with fuzz; optional hand edit `<dir>/port.py <worktree>` for a hunk that really
@@ -173,6 +214,16 @@ def rebase(ids, edit=None):
                 m2 = json.load(open(os.path.join(d, "meta.json")))
                 m2["rebased_on"] = sh("git -C %s rev-parse --short HEAD" % REPO)[1].strip()
                 json.dump(m2, open(os.path.join(d, "meta.json"), "w"), indent=1)
+            if not ok and os.environ.get("REBASE_WEAK"):
+                ok2, how = weak_confirm(src, sid, kind)
+                if ok2:
+                    shutil.copy(os.path.join(src, "patch.diff"), os.path.join(d, "patch.diff"))
+                    m2 = json.load(open(os.path.join(d, "meta.json")))
+                    m2["rebased_on"] = sh("git -C %s rev-parse --short HEAD" % REPO)[1].strip()
+                    m2["rebased_weak"] = "the demonstration was written against a tree with a defect repaired since (it fails on the untouched HEAD for that reason); confirmed on HEAD as: " + how
+                    json.dump(m2, open(os.path.join(d, "meta.json"), "w"), indent=1)
+                    print("%-9s rebased, weakly confirmed" % sid)
+                    continue
             print("%-9s %s" % (sid, "rebased and confirmed again" if ok else "REBASED PATCH NOT CONFIRMED"))
         finally:
             if made:
